@@ -3,14 +3,15 @@
 use std::collections::{BTreeMap, BTreeSet};
 
 use aranya_runtime::{
-    storage::linear::testing::MemStorageProvider, Address, ClientError, ClientState, CmdId,
+    storage::linear::LinearStorageProvider, Address, ClientError, ClientState, CmdId,
     Command as _, GraphId, Location, MemSpill, PolicyError, Prior, RuntimeBuffers, Segment as _,
     Storage as _, StorageError, StorageProvider, Transaction, TraversalBuffer,
 };
 
 use crate::audit::{self, AAction, ACmd, ASink, AuditStore};
 
-pub type SP = MemStorageProvider;
+/// memory-backed linear storage with a read-fault switch (`faulty.rs`)
+pub type SP = LinearStorageProvider<crate::faulty::FaultyManager>;
 pub type Seg = <SP as StorageProvider>::Segment;
 pub type Txn = Transaction<SP, AuditStore>;
 
